@@ -50,6 +50,7 @@ for _k in KINDS:
     for _o in ('full', 'partial', 'zero'):
         for _c in ('credit', 'nocredit'):
             REQUIRED['%s/%s/%s' % (_k, _o, _c)] = 3
+del REQUIRED['Sum/partial/nocredit']     # a SumGrader result is all or nothing; only attempt credit makes it partial
 REQUIRED.update({'list-result': 300, 'debug-on': 300, 'attempt-credit<1': 500, 'pinned-ok-survives': 5,
                  'nested-list': 100, 'order-clause-judged': 50, 'sentinel-present': 300})
 
